@@ -247,7 +247,11 @@ def updateSolubility (x : α) (liquid solid : List α) (idx : List Nat) (s : Nat
 def pureSolute (T Tm : α) (liquid solid : List α) (s : Nat) (m : α) : List α × List α :=
   if Tm < T then (liquid.set s m, solid.set s 0) else (liquid.set s 0, solid.set s m)
 
-/-- `_nonzero` and whether `_chemical` is set.  `_chemical` is never cleared by the code. -/
+/-- `_nonzero` (the set of chemicals the solver was last set up for) and whether `_chemical` is set.
+Written to the repaired `_setup` (fixes_proposed/C15-5.md): a set-up for another set of chemicals
+records that set and sets OR CLEARS `_chemical`; as first found, `_chemical` was never cleared, so after
+one pure-solute call every later call took the pure-solute branch, with the melting point of that first
+chemical. -/
 structure SleState where
   nonzero : Option (List Nat) := none
   pure : Bool := false
@@ -274,11 +278,12 @@ structure SleIn (α : Type) where
   /-- all chemical indices (`slice(None)`) -/
   all : List Nat
 
-/-- the part of `SLE._setup` that keeps `_nonzero` / `_chemical` -/
+/-- the part of `SLE._setup` that keeps `_nonzero` / `_chemical`: nothing when the set of chemicals
+present is the one it was last set up for; otherwise the set is recorded and the solver is in the
+pure-solute mode exactly when one chemical takes part -/
 def sleSetup (st : SleState) (nonzero idx : List Nat) : SleState :=
   if st.nonzero == some nonzero then st
-  else if idx.length == 1 then { st with pure := true }
-  else { st with nonzero := some nonzero }
+  else { nonzero := some nonzero, pure := idx.length == 1 }
 
 /-- the rows after a computed-solubility call -/
 def sleRows (isPure : Bool) (c : SleIn α) (m : α) : List α × List α :=
